@@ -43,7 +43,7 @@ def act_variants():
 
 def run(tier):
     res = Result(PID)
-    N, NA = (5, 3) if tier == "quick" else (7, 4)
+    N, NA = (6, 3) if tier == "quick" else (7, 4)
     rnd = random.Random(seed())
     allf = [f for n in range(1, N + 1) for f in F.forests(n)]
     rnd.shuffle(allf)
